@@ -47,7 +47,10 @@ def minimal(bs):
 
 
 def lib_addr(v):
-    return Address((bi(v['wc'], True), bi(v['hash']).to_bytes(32, 'big')))
+    a = Address((bi(v['wc'], True), bi(v['hash']).to_bytes(32, 'big')))
+    if v.get('any'):
+        a.set_anycast(len(v['any'][0]), bi(v['any'][0]))
+    return a
 
 
 def lib_ext(v):
@@ -220,8 +223,8 @@ def generate(tier, seed, ctx):
         # an internal message whose value is a default-constructed collection, after the edits above
         mi = T.InternalMsgInfo(True, False, False, lib_addr({'wc': [0] * 8, 'hash': [0] * 256}), lib_addr({'wc': [1] * 8, 'hash': [1] * 256}),
                                B.CurrencyCollection(3), 0, 0, 0, 0)
-        mv = {'info': {'c': 'int_msg_info', 'ihr_disabled': [1], 'bounce': [0], 'bounced': [0], 'src': {'wc': [0] * 8, 'hash': [0] * 256},
-                       'dest': {'wc': [1] * 8, 'hash': [1] * 256}, 'value': {'grams': [3], 'other': []}, 'ihr_fee': [], 'fwd_fee': [],
+        mv = {'info': {'c': 'int_msg_info', 'ihr_disabled': [1], 'bounce': [0], 'bounced': [0], 'src': {'wc': [0] * 8, 'hash': [0] * 256, 'any': []},
+                       'dest': {'wc': [1] * 8, 'hash': [1] * 256, 'any': []}, 'value': {'grams': [3], 'other': []}, 'ihr_fee': [], 'fwd_fee': [],
                        'created_lt': [0] * 64, 'created_at': [0] * 32}, 'init': [], 'body': {'b': [1, 1], 'r': []}}
         rec = {'op': 'msg_ser', 'val': mv, 'tags': ['history', 'message_with_default_collection']}
         try:
